@@ -78,3 +78,16 @@ func (rp *ResourcePool) VerifDrain() bool {
 		return false
 	}
 }
+
+// VerifScalingFree reports whether the rp.scaling semaphore is free (only
+// meaningful while every pool goroutine is parked at a step point).
+func (rp *ResourcePool) VerifScalingFree() bool { return rp.scaling.Size() == 1 }
+
+// VerifFreeScaling frees the rp.scaling semaphore if it is taken (used only to
+// unwind goroutines after a schedule has ended: the holder may be a goroutine
+// of the pool that stays parked).
+func (rp *ResourcePool) VerifFreeScaling() {
+	if rp.scaling.Size() == 0 {
+		rp.scaling.Release()
+	}
+}
